@@ -79,6 +79,7 @@ fn drive<T: TimeoutFn<u32> + 'static>(mut tl: TimeLimiter<Inner, T>, script: svc
         step += 1;
     }
     assert!(mon().calls <= 1 && (mon().calls == 0 || mon().last_req == req), "[C20.timelimiter_forwards_once] the request is forwarded once, unchanged");
+    assert!(mon().unready_calls == 0, "[C20.timelimiter_ready_instance] the call goes to the instance on which readiness was observed");
     if cancel {
         if let (Some(l), Some(r)) = (latency, &out) {
             if l < timeout && !script.never {
